@@ -378,5 +378,39 @@ class SpelledKeys(Stream):
         return bool(case["acc"])
 
 
+class NamedAbsolute(Stream):
+    """the library's named absolute notes (C1 .. B8, sharps Xs, flats Xb): each sounds the pitch its name says on every chord"""
+    name = "named_absolute_notes"
+    checker = None
+    pair = "property oracle: chord.to_pitch(library symbol X<n>) = pitch class of X + 12 (n - 5), on random chords (the table itself is a theorem over the regenerated LIB_ABSOLUTE_NOTES)"
+    quick, thorough = 300, 2000
+    LETTER = {"C": 0, "D": 2, "E": 4, "F": 5, "G": 7, "A": 9, "B": 11}
+
+    def gen(self, rng, n):
+        for _ in range(n):
+            c = rand_chord(rng)
+            c.pop("ton_none", None)
+            yield {"chord": c, "letter": rng.choice("CDEFGAB"), "suffix": rng.choice(["", "", "s", "b"]), "number": rng.randrange(1, 9)}
+
+    def impl(self, case):
+        import musiclang.library as lib
+        nm = f"{case['letter']}{case['suffix']}{case['number']}"
+        if not hasattr(lib, nm):
+            return {"missing": nm}
+        r = mlang.guarded(lambda: int(mlang.mk_chord(case["chord"]).to_pitch(getattr(lib, nm))))
+        return {"name": nm, "pitch": r}
+
+    def spec(self, case, r):
+        if "missing" in r:
+            return None if case["suffix"] else {"sig": "named-note-missing", "msg": r["missing"]}
+        want = self.LETTER[case["letter"]] + {"": 0, "s": 1, "b": -1}[case["suffix"]] + 12 * (case["number"] - 5)
+        if mlang.is_exc(r["pitch"]) or r["pitch"] != want:
+            return {"sig": "named-absolute-note-pitch", "msg": f"{r['name']} sounds {r['pitch']}, its name says {want}"}
+        return None
+
+    def hist_keys(self, case, r):
+        return ["octave-number=%d" % case["number"]]
+
+
 def streams():
-    return [ToPitch(), PitchLists(), SharedChord(), SpelledKeys()]
+    return [NamedAbsolute(), ToPitch(), PitchLists(), SharedChord(), SpelledKeys()]
